@@ -93,7 +93,7 @@ class LockWorld:
     def __init__(self, sim, rel=None):
         self.sim = sim
         self.rel = rel or (lambda p: p)
-        self.held = {}          # (st_dev, st_ino) of the locked open file -> (pid, lock object)
+        self.held = {}          # (st_dev, st_ino) of the locked open file -> [(pid, lock object, shared?)]
         self._aliases = {}
         self.contended = 0
         self.acquired = 0
@@ -108,14 +108,27 @@ class LockWorld:
         return self._aliases[key]
 
     def _on_kill(self, proc):
-        for key, (pid, obj) in list(self.held.items()):
-            if pid == proc.pid:
+        for key, holders in list(self.held.items()):
+            for h in list(holders):
+                if h[0] == proc.pid:
+                    holders.remove(h)
+                    self.sim.record("lock-freed-by-os", self.rel(h[1].filename), self.alias(key), None, pid=proc.pid)
+            if not holders:
                 del self.held[key]
-                self.sim.record("lock-freed-by-os", self.rel(obj.filename), self.alias(key), None, pid=proc.pid)
+
+
+LOCK_EX, LOCK_SH, LOCK_NB, LOCK_UN = 2, 1, 4, 8       # fcntl values, as portalocker.LockFlags
 
 
 def make_fake_portalocker(world, default_timeout=5.0, default_check_interval=0.25):
     sim = world.sim
+    import enum
+
+    class LockFlags(enum.IntFlag):
+        EXCLUSIVE = LOCK_EX
+        SHARED = LOCK_SH
+        NON_BLOCKING = LOCK_NB
+        UNBLOCK = LOCK_UN
 
     class Lock:
         def __init__(self, filename, mode="a", timeout=None, check_interval=None,
@@ -124,6 +137,8 @@ def make_fake_portalocker(world, default_timeout=5.0, default_check_interval=0.2
             self.timeout = default_timeout if timeout is None else timeout
             self.check_interval = default_check_interval if check_interval is None else check_interval
             self.fail_when_locked = fail_when_locked
+            # flock semantics: LOCK_SH holders may share, LOCK_EX excludes everybody (default, like portalocker)
+            self.shared = bool(flags is not None and int(flags) & LOCK_SH)
             self.fh = None
 
         def acquire(self, timeout=None, check_interval=None, fail_when_locked=None):
@@ -144,8 +159,9 @@ def make_fake_portalocker(world, default_timeout=5.0, default_check_interval=0.2
                 start = None
                 while True:
                     sim.yield_point("lock-try", world.rel(self.filename), alias)
-                    if key not in world.held:
-                        world.held[key] = (pid, self)
+                    holders = world.held.get(key, [])
+                    if not holders or (self.shared and all(h[2] for h in holders)):
+                        world.held.setdefault(key, []).append((pid, self, self.shared))
                         world.acquired += 1
                         self.fh = fh
                         self._key = key
@@ -171,9 +187,12 @@ def make_fake_portalocker(world, default_timeout=5.0, default_check_interval=0.2
             if self.fh is None:
                 return
             sim.yield_point("lock-release", world.rel(self.filename), None)
-            cur = world.held.get(self._key)
-            if cur is not None and cur[1] is self:
-                del world.held[self._key]
+            holders = world.held.get(self._key, [])
+            mine = [h for h in holders if h[1] is self]
+            if mine:
+                holders.remove(mine[0])
+                if not holders:
+                    world.held.pop(self._key, None)
                 sim.record("lock-released", world.rel(self.filename), world.alias(self._key))
             try:
                 self.fh.close()
@@ -190,6 +209,11 @@ def make_fake_portalocker(world, default_timeout=5.0, default_check_interval=0.2
 
     mod = types.ModuleType("portalocker")
     mod.Lock = Lock
+    mod.LockFlags = LockFlags
+    mod.LOCK_EX, mod.LOCK_SH, mod.LOCK_NB, mod.LOCK_UN = (LockFlags.EXCLUSIVE, LockFlags.SHARED, LockFlags.NON_BLOCKING,
+                                                          LockFlags.UNBLOCK)
+    mod.constants = types.SimpleNamespace(LockFlags=LockFlags, LOCK_EX=LockFlags.EXCLUSIVE, LOCK_SH=LockFlags.SHARED,
+                                          LOCK_NB=LockFlags.NON_BLOCKING, LOCK_UN=LockFlags.UNBLOCK)
     mod.LockException = LockException
     mod.AlreadyLocked = AlreadyLocked
     mod.exceptions = types.SimpleNamespace(LockException=LockException, AlreadyLocked=AlreadyLocked,
